@@ -41,10 +41,14 @@ CHILD = textwrap.dedent('''
             tick('close'); return self.f.close()
     class OS:
         path = os.path
+        def __getattr__(self, n):
+            return getattr(os, n)
         def makedirs(self, *a, **k):
             tick('mkdir'); return os.makedirs(*a, **k)
         def rename(self, a, b):
             tick('rename'); return os.rename(a, b)
+        def replace(self, a, b):
+            tick('rename'); return os.replace(a, b)
     def fake_open(name, mode='r', *a, **k):
         tick('open'); return F(builtins.open(name, mode, *a, **k))
     S.open = fake_open
@@ -122,7 +126,7 @@ def gen_cases(rng, tier):
         pkg = [[{'a': 10 * i + j, 's': 'x%d' % j} for j in range(n)] for i, n in enumerate(sh)]
         n0 = sh[0]
         cases.append({'kind': 'faults', 'pkg': pkg, 'shape': sh,
-                      'points': [['src', k] for k in sorted(set([0, 50, 99, 100, 101, n0 - 10, n0 - 1]))] +
+                      'points': [['src', k] for k in sorted(set(k for k in [0, 50, 99, 100, 101, n0 - 10, n0 - 1] if 0 <= k < n0))] +
                                 [['down', k] for k in (0, 7, n0 - 1)]})
     return cases
 
